@@ -313,16 +313,17 @@ class RSNorm(AgentWrapper):
         :rtype: Union[RunningMeanStd, Dict[str, RunningMeanStd], Tuple[RunningMeanStd, ...]]
         """
         if isinstance(observation_space, spaces.Dict):
+            subspaces = observation_space.spaces
             if norm_obs_keys is not None:
-                observation_space = {
+                subspaces = {
                     key: value
-                    for key, value in observation_space.spaces.items()
+                    for key, value in subspaces.items()
                     if key in norm_obs_keys
                 }
 
             return {
                 key: RunningMeanStd(epsilon, shape=value.shape, device=device)
-                for key, value in observation_space.spaces.items()
+                for key, value in subspaces.items()
             }
 
         elif isinstance(observation_space, spaces.Tuple):
@@ -344,7 +345,8 @@ class RSNorm(AgentWrapper):
         :rtype: ObservationType
         """
         if isinstance(self.obs_rms, dict):
-            norm_observation = {}
+            # keys that are not normalised are handed on unchanged
+            norm_observation = {key: observation[key] for key in observation.keys()}
             for key, rms in self.obs_rms.items():
                 norm_observation[key] = (observation[key] - rms.mean) / (
                     rms.var + rms.epsilon
